@@ -1,5 +1,64 @@
 import Ptn.C14.Model
-/-! Line-protocol handler for the C14 model (core Lean only). -/
+/-! Line-protocol handler for the C14 model (core Lean only).
+
+  graph <nU> <nV> <u:v> …   → `AU=<l>|<l>|…;AV=<l>|<l>|…` adjacency lists (`l` = comma separated), or `assert`
+  match <nU> <nV> <u:v> …   → `M=<u:v,…>` the matching of `HopcroftKarp(graph)()`
+  cover <nU> <nV> <u:v> …   → `M=<u:v,…>;U=<u,…>;V=<v,…>;cert=<0|1>` for `minimum_vertex_cover`
+                               (`cert` = the decidable certificate of `Props.certificate_sound`)
+  errors: `assert` (graph construction), `assert-cover` (the assert of minimum_vertex_cover),
+          `fuel-bfs`, `fuel-dfs`, `fuel-outer`, `fuel-explore` (a fuel ran out: never expected)
+-/
 namespace Ptn.C14
-def handle (args : List String) : String := "bad-op"
+
+def parseEdge (t : String) : Option (Nat × Nat) :=
+  match t.splitOn ":" with
+  | [a, b] =>
+    match a.toNat?, b.toNat? with
+    | some u, some v => some (u, v)
+    | _, _ => none
+  | _ => none
+
+def parseEdges : List String → Option (List (Nat × Nat))
+  | [] => some []
+  | t :: ts =>
+    match parseEdge t, parseEdges ts with
+    | some e, some es => some (e :: es)
+    | _, _ => none
+
+def showNats (l : List Nat) : String := ",".intercalate (l.map toString)
+def showPairs (l : List (Nat × Nat)) : String := ",".intercalate (l.map fun p => s!"{p.1}:{p.2}")
+
+def Err.show : Err → String
+  | .fuelBfs => "fuel-bfs"
+  | .fuelDfs => "fuel-dfs"
+  | .fuelOuter => "fuel-outer"
+  | .fuelExplore => "fuel-explore"
+  | .assertion => "assert-cover"
+
+def withGraph (a b : String) (es : List String) (k : Graph → String) : String :=
+  match a.toNat?, b.toNat?, parseEdges es with
+  | some nU, some nV, some edges =>
+    match mkGraph nU nV edges with
+    | none => "assert"
+    | some g => k g
+  | _, _, _ => "bad-op"
+
+def handle (args : List String) : String :=
+  match args with
+  | "graph" :: a :: b :: es =>
+    withGraph a b es fun g =>
+      "AU=" ++ "|".intercalate (g.adjU.map showNats) ++ ";AV=" ++ "|".intercalate (g.adjV.map showNats)
+  | "match" :: a :: b :: es =>
+    withGraph a b es fun g =>
+      match hopcroftKarp g with
+      | .error e => e.show
+      | .ok M => "M=" ++ showPairs M
+  | "cover" :: a :: b :: es =>
+    withGraph a b es fun g =>
+      match minimumVertexCover g with
+      | .error e => e.show
+      | .ok (M, cu, cv) =>
+        s!"M={showPairs M};U={showNats cu};V={showNats cv};cert={if certificateOk g M cu cv then 1 else 0}"
+  | _ => "bad-op"
+
 end Ptn.C14
